@@ -132,6 +132,22 @@ Section InitTie.
       split; [rewrite Hl; unfold py_range; rewrite map_length, seq_length; reflexivity|]. split; assumption.
   Qed.
 
+  (* no livelock in the generated random initialisation: with rejected candidates first and a feasible one after them on the tape, one
+     requested position is that one, after exactly one constraint evaluation per candidate *)
+  Theorem init_random_search_first_feasible fuel (self : g_init) (rejected : list pos) (p : pos) (rest : tape) :
+    Forall (fun q => in_box sp q /\ feasible sp cons q = Ok false) rejected -> in_box sp p -> feasible sp cons p = Ok true ->
+    (length rejected < fuel)%nat -> in_tape self = flat_map (map DZ) rejected ++ map DZ p ++ rest ->
+    g_Initializer_init_random_search sp cons fuel self 1 =
+    Ok (self <| in_tape := rest |> <| in_ncalls := in_ncalls self + Z.of_nat (length rejected) + 1 |>, [p]).
+  Proof.
+    intros Hr Hp Hf Hfuel Ht. unfold g_Initializer_init_random_search. cbv zeta. change (1 =? 0) with false. cbv iota.
+    change (py_range 1) with [0]. cbn [py_for].
+    match goal with |- context [py_while_ret fuel ?wb ([], self)] => rewrite (while_move_random wb) end.
+    - rewrite Ht, (move_random_first_feasible sp cons rejected p rest (in_ncalls self) Hr Hp Hf fuel Hfuel). cbn [bind app]. reflexivity.
+    - intros acc0 s0. unfold ig_draw_position. destruct (draw_position (dim_sizes sp) (in_tape s0)) as [[q t']|e]; cbn [bind fst snd]; [|reflexivity].
+      unfold ig_not_in_constraint. cbn. destruct (not_in_constraint sp cons q) as [[|]|e]; reflexivity.
+  Qed.
+
   (* ---------- _fill_rest_random ---------- *)
   Theorem fill_rest_random_spec fuel self ps s' l :
     g_Initializer_fill_rest_random sp cons fuel self ps = Ok (s', l) ->
